@@ -122,7 +122,8 @@ def oracle(record, areas_in_record):
     for area in current:
         if area.parent is not None and not any(area.parent is r for r in regions):
             return "an area's parent is a region that is no longer in the record"
-    for proto in record.get_protoclusters():
+    tracked = [p for a in areas_in_record if hasattr(a, "protoclusters") for p in a.protoclusters]
+    for proto in list(record.get_protoclusters()) + tracked:       # also the protoclusters a clear has removed
         if proto.parent is not None and not any(proto.parent is c for c in record.get_candidate_clusters()):
             return "a protocluster's parent is a candidate cluster that is no longer in the record"
     for cds in record.get_cds_features():
@@ -302,9 +303,15 @@ def ring_case(n, circular, areas, kinds, genes=()):
 RULE = ("records of 300-5000 bases (linear, and circular without origin-spanning areas) with 1-8 areas (sub-regions and single-"
         "protocluster candidate clusters; nested, chained, touching, 1 base apart) supplied in random order, 0-6 genes incl. genes "
         "straddling area junctions; history: add areas, create_regions, then one of {clear_regions+create_regions, "
-        "clear_subregions, add one more area + clear_regions + create_regions}; after every create the regions are compared with "
-        "the model and the numbering / parent-link oracles are evaluated.  Non-trivial = some region has >= 2 areas")
-
+        "clear_subregions, add one more area + clear_regions + create_regions}; ring histories: circular records of 60-1000 "
+        "bases, 1-7 areas, 75 % with 1-2 origin-spanning ones, create_regions, then one of {re-create, clear_subregions, "
+        "clear_candidate_clusters, clear_protoclusters, strip_antismash_annotations, add one more area, remove everything by "
+        "one of four clear paths and hand the SAME objects to the record again in another order}, then (half of the cases) 1-3 "
+        "genes added AFTER the regions; numbering histories: the four ordered lists under add / clear_* / strip / add-again of "
+        "the same objects; add_region histories; link histories incl. strip and add-again; after every create the regions are "
+        "compared with the model and the numbering / parent-link oracles are evaluated.  Non-trivial = some region has >= 2 "
+        "areas, a numbering list of >= 2 members that was cleared and refilled, a refused add_region, a link history with a "
+        "clear and a surviving link, a late gene inside a region")
 
 def run(chk):
     if not chk.build_and_audit():
@@ -396,53 +403,280 @@ def run(chk):
             impl_outs.append([-1, err_code(exc)])
             chk.count("error_" + type(exc).__name__)
             chk.note_case(flat, False)
-    # ---- numbering histories (fn 2): add_subregion / clear_subregions on a record without regions
-    from antismash.common.secmet.test.helpers import DummySubRegion
-    for _ in range(total // 3):
-        n = 400
-        record = build_record(n, False, [])
-        ops, objs, used = [], {}, set()
-        for step in range(rng.choice([1, 2, 3, 5, 8])):
-            if ops and rng.random() < 0.12:
-                record.clear_subregions()
-                ops.append([1])
-                continue
-            s = rng.randrange(0, n - 1)
-            e = rng.randrange(s + 1, min(n, s + 60) + 1)
-            if (s, e) in used:
-                continue
-            used.add((s, e))
-            obj = DummySubRegion(s, e)
-            record.add_subregion(obj)
-            objs[id(obj)] = len(objs) + 1
-            index = [id(o) for o in record.get_subregions()].index(id(obj))
-            ops.append([0, index, objs[id(obj)]])
-        flat = [PROP, 2, len(ops)] + [x for op in ops for x in op]
-        members = record.get_subregions()
-        out = [len(members)]
-        for pos, obj in enumerate(members):
-            number = obj.get_subregion_number()
-            if record.get_subregion(number) is not obj:
-                chk.violation("counterexample", "a sub-region's number does not identify it",
-                              {"theorem_or_correspondence": "C06_numbering_inv / Record.add_subregion", "input": {"ops": ops}, "flat": flat})
-            out += [objs[id(obj)], number]
-        cases.append(flat)
-        impl_outs.append(out)
-        chk.count("numbering_history")
-        chk.note_case(flat, len(members) >= 2, {"step": "numbering", "ops": ops, "implementation": out} if rng.random() < 0.01 else None)
+    run_numbering(chk, rng, total // 3, cases, impl_outs)
     pending = run_rings(chk, rng, 2 * total, cases, impl_outs)
     if chk.tier == "thorough":
         pending += run_rings_exhaustive(chk, cases, impl_outs)
     pending_add = run_add_region(chk, rng, total, cases, impl_outs)
     run_links(chk, rng, total // 2, cases, impl_outs)
+    pending_late = LATE_PENDING[:]
+    del LATE_PENDING[:]
     model_outs = common.correspondence(chk, cases, impl_outs,
                                        describe=lambda flat: {"function": "Record.create_regions", "length": flat[2], "areas": flat[4:]})
     decide_rings(chk, pending, model_outs)
     decide_add_region(chk, pending_add, model_outs)
+    decide_late_genes(chk, pending_late, model_outs)
     chk.crosscheck_vm(cases, model_outs)
     known_findings(chk)
     return chk.finish(RULE)
 
+
+
+def add_objects(record, objs):
+    """ hands areas to the record: a candidate cluster after its protoclusters """
+    for obj in objs:
+        if hasattr(obj, "protoclusters"):
+            for proto in obj.protoclusters:
+                if not any(proto is p for p in record.get_protoclusters()):
+                    record.add_protocluster(proto)
+            record.add_candidate_cluster(obj)
+        else:
+            record.add_subregion(obj)
+
+
+def list_diff(before, after, ident):
+    """ what happened to one ordered feature list of the record during a call, as operations of the numbering model:
+        nothing, one insertion [0, index, id], or a clear [1] followed by the insertions that rebuild `after` """
+    if len(after) == len(before) and all(a is b for a, b in zip(after, before)):
+        return []
+    if len(after) == len(before) + 1:
+        i = 0
+        while i < len(before) and after[i] is before[i]:
+            i += 1
+        if all(after[j + 1] is before[j] for j in range(i, len(before))):
+            return [[0, i, ident(after[i])]]
+    return [[1]] + [[0, i, ident(obj)] for i, obj in enumerate(after)]
+
+
+def run_numbering(chk, rng, total, cases, impl_outs):
+    """ fn 2: histories of add_subregion / add_protocluster / add_candidate_cluster / add_region and clear_subregions /
+        clear_candidate_clusters / clear_protoclusters / clear_regions / strip_antismash_annotations on one record, in
+        which features removed by a clear are handed to the record AGAIN (the same objects, whose numbers of their earlier
+        life are still in the numbering dictionaries), in any order.  Each of the four ordered lists is followed
+        separately: after every call the list is compared with what it was (insertion at an index / cleared and rebuilt)
+        and the resulting operations are given to the numbering model; at the end every member's number is compared
+        with the model's and must be position + 1 and lead back to the member. """
+    from antismash.common.secmet.test.helpers import DummySubRegion, DummyProtocluster, DummyCandidateCluster
+    from antismash.common.secmet.features import Region
+    kinds = ("sub", "proto", "cand", "region")
+    for _ in range(total):
+        n = 400
+        circular = rng.random() < 0.3
+        record = build_record(n, circular, [])
+        ids, alive = {}, []
+        pool = {k: [] for k in kinds}
+        ops = {k: [] for k in kinds}
+        history = []
+
+        def ident(obj):
+            if id(obj) not in ids:
+                ids[id(obj)] = len(ids) + 1
+                alive.append(obj)
+            return ids[id(obj)]
+
+        def lists():
+            return {"sub": list(record.get_subregions()), "proto": list(record.get_protoclusters()),
+                    "cand": list(record.get_candidate_clusters()), "region": list(record.get_regions())}
+
+        def span():
+            if circular and rng.random() < 0.1:
+                s = rng.randrange(n // 2, n)
+                return s, rng.randrange(1, n // 4)
+            s = rng.randrange(0, n - 1)
+            return s, rng.randrange(s + 1, min(n, s + rng.choice([8, 60])) + 1)
+
+        adders = {"sub": record.add_subregion, "proto": record.add_protocluster, "cand": record.add_candidate_cluster,
+                  "region": record.add_region}
+        before = lists()
+        for _step in range(rng.choice([2, 4, 6, 9, 12, 16])):
+            r = rng.random()
+            try:
+                if r < 0.4:
+                    kind = rng.choice(kinds)
+                    s, e = span()
+                    if kind == "sub":
+                        obj = make_ring_area("sub", s, e, n)
+                    elif kind == "proto":
+                        obj = DummyProtocluster(start=s, end=e, core_start=s, core_end=e, record_length=n)
+                    elif kind == "cand":
+                        proto = DummyProtocluster(start=s, end=e, core_start=s, core_end=e, record_length=n)
+                        obj = DummyCandidateCluster([proto], circular_wrap_point=n) if s > e else DummyCandidateCluster([proto])
+                    else:
+                        obj = Region(subregions=[make_ring_area("sub", s, e, n)])
+                    pool[kind].append(obj)
+                    history.append(("add_" + kind, (s, e)))
+                    adders[kind](obj)
+                elif r < 0.72:
+                    kind = rng.choice(kinds)
+                    current = before[kind]
+                    absent = [o for o in pool[kind] if not any(o is c for c in current)]
+                    if not absent:
+                        continue
+                    obj = rng.choice(absent)
+                    history.append(("add_again_" + kind, (int(obj.location.start), int(obj.location.end))))
+                    adders[kind](obj)
+                else:
+                    call = rng.choice(["clear_subregions", "clear_candidate_clusters", "clear_protoclusters", "clear_regions",
+                                       "strip_antismash_annotations"])
+                    history.append((call,))
+                    getattr(record, call)()
+            except Exception as exc:  # pylint: disable=broad-except
+                # add_region of a region overlapping another one (nothing changes), or a re-creation that fails half way
+                # (recorded class origin_spanning_long_arc): the lists are followed by their state, whatever happened
+                history.append(("raised " + type(exc).__name__,))
+                chk.count("numbering_call_raised_" + type(exc).__name__)
+            after = lists()
+            for kind in kinds:
+                for obj in after[kind]:
+                    if not any(obj is o for o in pool[kind]):
+                        pool[kind].append(obj)            # regions made by a re-creation
+                ops[kind] += list_diff(before[kind], after[kind], ident)
+            before = after
+        getters = {"sub": (record.get_subregion_number, record.get_subregion),
+                   "proto": (record.get_protocluster_number, record.get_protocluster),
+                   "cand": (record.get_candidate_cluster_number, record.get_candidate_cluster),
+                   "region": (record.get_region_number, record.get_region)}
+        for kind in kinds:
+            flat = [PROP, 2, len(ops[kind])] + [x for op in ops[kind] for x in op]
+            members = before[kind]
+            out = [len(members)]
+            failure = None
+            for pos, obj in enumerate(members):
+                try:
+                    number = getters[kind][0](obj)
+                except ValueError:
+                    number = -1
+                if number != pos + 1 or getters[kind][1](number) is not obj:
+                    failure = failure or f"the {kind} at position {pos} of its list shows number {number}"
+                out += [ident(obj), number]
+            if failure:
+                chk.violation("counterexample", "numbering after a history of add / clear / add-again calls: " + failure,
+                              {"theorem_or_correspondence": "C06_numbering_inv (implementation-side oracle) / Record.add_*",
+                               "input": {"length": n, "circular": circular, "history": history, "list": kind,
+                                         "list_operations": ops[kind]},
+                               "implementation": out, "flat": flat})
+            cases.append(flat)
+            impl_outs.append(out)
+            chk.count("numbering_history_" + kind)
+            chk.note_case(flat, len(members) >= 2 and any(op[0] == 1 for op in ops[kind]),
+                          {"step": "numbering " + kind, "history": history, "ops": ops[kind], "implementation": out}
+                          if rng.random() < 0.003 else None)
+
+
+# ---- genes added after the regions (fn 6) ----
+LATE_PENDING = []
+
+
+def gene_in_region(gene_parts, region_parts):
+    return all(any(p0 <= s and e <= p1 for p0, p1 in region_parts) for s, e in gene_parts)
+
+
+def late_genes(chk, rng, record, n, circular, cases, impl_outs, context):
+    """ adds 1-3 genes to a record that already has its regions (Record.add_cds_feature -> _link_cds_to_parent) and
+        notes, for each, which regions took the gene and where cds.region points; the verdict (the gene points to the
+        one region containing it, as if it had been there before the regions) waits for the model's answer """
+    from antismash.common.secmet.test.helpers import DummyCDS
+    from antismash.common.secmet.locations import CompoundLocation, FeatureLocation
+    regions = list(record.get_regions())
+    if not regions:
+        return
+    taken = {str(c.location) for c in record.get_cds_features()}
+    for k in range(rng.choice([1, 2, 3])):
+        region = rng.choice(regions)
+        parts = loc_parts(region.location)
+        r = rng.random()
+        gene = None
+        if r < 0.7:
+            p0, p1 = rng.choice(parts)
+            length = rng.choice([3, 6, 9])
+            if p1 - p0 >= length:
+                s = rng.choice([p0, p1 - length, rng.randint(p0, p1 - length)])
+                gene = [(s, s + length)]
+        elif r < 0.8 and len(parts) == 2 and parts[1][0] == 0 and parts[0][1] == n:
+            a, b = rng.choice([3, 6]), rng.choice([3, 6])
+            if parts[0][1] - parts[0][0] >= a and parts[1][1] >= b:
+                gene = [(n - a, n), (0, b)]                      # a gene crossing the origin inside the crossing region
+        if gene is None:
+            s = rng.randrange(0, n - 3)
+            gene = [(s, s + 3)]
+        strand = rng.choice([1, -1])
+        if len(gene) == 1:
+            location = FeatureLocation(gene[0][0], gene[0][1], strand)
+        else:
+            location = CompoundLocation([FeatureLocation(s, e, 1) for s, e in gene])
+        if str(location) in taken:
+            continue
+        by_bases = [all(any(p0 <= x < p1 for p0, p1 in loc_parts(reg.location)) for s, e in gene for x in range(s, e))
+                    for reg in regions]
+        if by_bases != [gene_in_region(gene, loc_parts(reg.location)) for reg in regions]:
+            continue      # a gene over the junction of a whole-ring region [s:n)+[0:s): "contains" is ambiguous there
+        taken.add(str(location))
+        cds = DummyCDS(location=location, locus_tag=f"late{k}_{len(taken)}")
+        flat = [PROP, 6, len(regions)] + [x for reg in regions for x in enc_loc(reg.location)] + enc_loc(location)
+        try:
+            record.add_cds_feature(cds)
+        except Exception as exc:  # pylint: disable=broad-except
+            cases.append(flat)
+            impl_outs.append([-1, err_code(exc)])
+            chk.count("late_gene_error_" + type(exc).__name__)
+            chk.note_case(flat, False)
+            continue
+        hits = [i for i, reg in enumerate(regions) if any(c is cds for c in reg.cds_children)]
+        linked = -1
+        for i, reg in enumerate(regions):
+            if cds.region is reg:
+                linked = i
+        if cds.region is not None and linked == -1:
+            linked = -2
+        expected = [i for i, reg in enumerate(regions) if gene_in_region(gene, loc_parts(reg.location))]
+        out = [len(hits)] + hits + [linked]
+        cases.append(flat)
+        impl_outs.append(out)
+        verdict = None
+        if hits != expected or linked != (expected[-1] if expected else -1):
+            verdict = ("a gene added after the regions does not point to the region that contains it" if expected
+                       else "a gene added after the regions is linked to a region that does not contain it")
+        region_parts = [loc_parts(reg.location) for reg in regions]
+        LATE_PENDING.append({"index": len(cases) - 1, "n": n, "circular": circular, "regions": region_parts, "gene": gene,
+                             "expected": expected, "hits": hits, "linked": linked, "impl": out, "verdict": verdict,
+                             "context": context})
+        chk.count("late_gene")
+        chk.count("late_gene_inside_a_region" if expected else "late_gene_outside_the_regions")
+        chk.note_case(flat, bool(expected), {"step": "late gene", "length": n, "regions": region_parts, "gene": gene,
+                                            "implementation": out} if rng.random() < 0.002 else None)
+
+
+def late_gene_class(item):
+    """ the recorded class late_gene_origin_region_unlinked, decided on the input: the record has two or more regions, the
+        first one spans the origin and contains the gene, the gene lies wholly in its part BEFORE the origin; recorded
+        shape of the failure: the gene is linked to nothing """
+    regions, gene = item["regions"], item["gene"]
+    if len(regions) < 2 or len(regions[0]) != 2 or item["expected"] != [0] or len(gene) != 1:
+        return None
+    if not (regions[0][0][0] <= gene[0][0] and gene[0][1] <= regions[0][0][1]):
+        return None
+    if item["hits"] or item["linked"] != -1:
+        return None
+    return "late_gene_origin_region_unlinked"
+
+
+def decide_late_genes(chk, pending, model_outs):
+    known = known_classes()
+    for item in pending:
+        if item["verdict"] is None:
+            continue
+        cls = late_gene_class(item)
+        if cls is not None and cls in known and model_outs[item["index"]] == item["impl"]:
+            chk.count("known_class_" + cls)
+            continue
+        chk.violation("counterexample", "add_cds_feature after create_regions: " + item["verdict"],
+                      {"theorem_or_correspondence": "C06_late_gene_link (independent oracle on the implementation's outcome; "
+                                                    "the clause is C08's: each gene points to the one region containing it, "
+                                                    "whether added before or after the areas)",
+                       "input": {"length": item["n"], "circular": item["circular"], "regions_in_record_order": item["regions"],
+                                 "late_gene": item["gene"], "history": item["context"]},
+                       "regions_that_took_the_gene": item["hits"], "cds_region": item["linked"], "expected": item["expected"],
+                       "model": model_outs[item["index"]], "class_of_failure": cls})
 
 
 def known_classes():
@@ -472,6 +706,11 @@ RING_CORPUS = [
     (100, [(43, 56), (32, 33), (51, 2)]),
     (1000, [(700, 50), (710, 760), (800, 850), (990, 1000), (300, 400)]),
     (1000, [(600, 40), (990, 1000), (610, 700), (100, 200), (699, 720), (20, 60)]),
+    # a layout reported independently as "whole-record region when a member of the crossing component starts past the
+    # midpoint (start >= L - end)": such a member is sent to the pre-origin chunk by _split_sections_around_origin, the
+    # hulls of the two chunks overlap and connect_locations answers [0:L] - the recorded class origin_spanning_long_arc
+    # (the component 39..28 covers 29 of the 40 bases); kept here so that its attribution to that class stays under watch
+    (40, [(39, 13), (10, 28), (21, 23), (5, 8), (28, 30)]),
 ]
 # ... and of the repaired finding C06-K3 add_region_scan_stops_early (an origin-spanning new region sharing bases with a
 # region other than the first was accepted), with the neighbouring call that must be accepted
@@ -480,6 +719,21 @@ ADD_REGION_CORPUS = [
     (1000, [(50, 150), (400, 500), (800, 950), (950, 20), (940, 960)]),
     (100, [(10, 20), (30, 40), (60, 70), (65, 5), (90, 15), (70, 10)]),
 ]
+
+
+def clearing_raised(chk, exc, n, circular, areas, kinds, step):
+    """ a clear_* call re-creates the regions from the areas that are left and that can fail on the layouts of the
+        recorded class origin_spanning_long_arc (the areas left over are a subset of the layout): counted there,
+        reported everywhere else """
+    subsets = [areas, [a for a, k in zip(areas, kinds) if k == "sub"], [a for a, k in zip(areas, kinds) if k != "sub"]]
+    if (isinstance(exc, ValueError) and "origin_spanning_long_arc" in known_classes()
+            and any(sub and long_arc_components(sub, n) for sub in subsets)):
+        chk.count("ring_history_discarded_long_arc_recreation")
+        return
+    chk.violation("counterexample", f"{step} raised {type(exc).__name__}: {exc}",
+                  {"theorem_or_correspondence": "Record.clear_* / strip_antismash_annotations (region re-creation must succeed)",
+                   "input": {"length": n, "circular": circular, "areas_in_supply_order": areas, "kinds": kinds,
+                             "history": ["add areas", "create_regions", step]}})
 
 
 def run_rings(chk, rng, total, cases, impl_outs):
@@ -523,7 +777,8 @@ def run_rings(chk, rng, total, cases, impl_outs):
         if observed is None:
             continue
         bad = oracle(record, objs)
-        step = rng.choice(["recreate", "clear_subregions", "clear_candidate_clusters", "add_then_recreate", "none"])
+        step = rng.choice(["recreate", "clear_subregions", "clear_candidate_clusters", "add_then_recreate", "none",
+                           "clear_protoclusters", "strip", "add_again", "add_again"])
         keep = list(range(len(areas)))
         if not bad and step != "none":
             error = None
@@ -537,6 +792,50 @@ def run_rings(chk, rng, total, cases, impl_outs):
                 elif step == "clear_candidate_clusters":
                     keep = [i for i in keep if kinds[i] != "cand"]
                     record.clear_candidate_clusters()
+                elif step == "clear_protoclusters":
+                    keep = [i for i in keep if kinds[i] != "cand"]
+                    record.clear_protoclusters()
+                elif step == "strip":
+                    keep = []
+                    try:
+                        record.strip_antismash_annotations()
+                    except Exception as exc:  # pylint: disable=broad-except
+                        clearing_raised(chk, exc, n, circular, areas, kinds, step)
+                        continue
+                    if any(o.parent is not None for o in objs) or any(
+                            p.parent is not None for o in objs if hasattr(o, "protoclusters") for p in o.protoclusters):
+                        bad = "a parent link survives strip_antismash_annotations"
+                elif step == "add_again":
+                    # everything is removed by one of the clear paths, then the SAME objects are handed to the record
+                    # again in another order (their numbers and the numbers of their earlier life are still stored)
+                    way = rng.choice(["strip", "cands_subs", "protos_subs", "subs_cands"])
+                    try:
+                        if way == "strip":
+                            record.strip_antismash_annotations()
+                        elif way == "cands_subs":
+                            record.clear_candidate_clusters()
+                            record.clear_subregions()
+                        elif way == "protos_subs":
+                            record.clear_protoclusters()
+                            record.clear_subregions()
+                        else:
+                            record.clear_subregions()
+                            record.clear_candidate_clusters()
+                    except Exception as exc:  # pylint: disable=broad-except
+                        clearing_raised(chk, exc, n, circular, areas, kinds, step + " " + way)
+                        continue
+                    if record.get_regions() or record.get_candidate_clusters() or record.get_subregions():
+                        bad = "areas or regions remain although every area was cleared"
+                    bad = bad or oracle(record, objs)
+                    keep = list(range(len(areas)))
+                    rng.shuffle(keep)
+                    if rng.random() < 0.3:
+                        keep.sort(key=lambda i: sort_key(objs[i].location), reverse=True)
+                    if way in ("cands_subs", "subs_cands") and rng.random() < 0.5:
+                        record.clear_protoclusters()
+                    add_objects(record, [objs[i] for i in keep])
+                    record.clear_regions()
+                    record.create_regions()
                 else:
                     s = rng.randrange(0, n - 1)
                     extra = (s, min(n, s + rng.choice([1, 5, 30])))
@@ -570,8 +869,20 @@ def run_rings(chk, rng, total, cases, impl_outs):
             chk.violation("counterexample", f"record state after {step if step != 'none' else 'create'}: {bad}",
                           {"theorem_or_correspondence": "C06_numbering_inv / C06_no_stale_parents (implementation-side oracle)",
                            "input": {"length": n, "circular": circular, "areas_in_supply_order": areas, "kinds": kinds,
-                                     "genes": genes, "history": ["add areas", "create_regions", step]},
+                                     "genes": genes, "history": ["add areas", "create_regions", step],
+                                     "areas_added_again_in_this_order": [areas[i] for i in keep] if step == "add_again" else None},
                            "failure": bad})
+        elif rng.random() < 0.5:
+            late_genes(chk, rng, record, n, circular, cases, impl_outs,
+                       {"areas_in_supply_order": areas, "kinds": kinds, "genes_before": genes,
+                        "history": ["add areas", "create_regions", step, "add_cds_feature"]})
+            bad = oracle(record, objs)
+            if bad:
+                chk.violation("counterexample", f"record state after genes were added to a record with regions: {bad}",
+                              {"theorem_or_correspondence": "C06_no_stale_parents (implementation-side oracle)",
+                               "input": {"length": n, "circular": circular, "areas_in_supply_order": areas, "kinds": kinds,
+                                         "genes": genes, "history": ["add areas", "create_regions", step, "add_cds_feature"]},
+                               "failure": bad})
     return pending
 
 
@@ -754,6 +1065,31 @@ def decide_add_region(chk, pending, model_outs):
 
 
 
+_LOGGED = []
+
+
+def logged_record(n, circular, genes):
+    """ a record of a harness subclass of the test helpers' DummyRecord that remembers what every create_regions call
+        grouped (strip_antismash_annotations re-creates the regions up to three times on its way) """
+    if not _LOGGED:
+        from antismash.common.secmet.test.helpers import DummyRecord
+
+        class LoggedRecord(DummyRecord):
+            """ DummyRecord + a log of create_regions outcomes """
+            def create_regions(self, *args, **kwargs):
+                count = super().create_regions(*args, **kwargs)
+                log = self.__dict__.get("create_log")
+                if log is not None:
+                    log.append(self.__dict__["snapshot"]())
+                return count
+        _LOGGED.append(LoggedRecord)
+    from antismash.common.secmet.test.helpers import DummyCDS
+    record = _LOGGED[0](seq="A" * n, circular=circular)
+    for i, (s, e) in enumerate(genes):
+        record.add_cds_feature(DummyCDS(s, e, locus_tag=f"g{i}"))
+    return record
+
+
 def run_links(chk, rng, total, cases, impl_outs):
     """ fn 5: histories of add_protocluster / add_candidate_cluster / add_subregion / create_regions / clear_* on a real
         Record; afterwards every protocluster's parent, every area's parent and every gene's region link is compared
@@ -766,7 +1102,7 @@ def run_links(chk, rng, total, cases, impl_outs):
         while pos + 9 <= n and len(genes) < 12:
             genes.append((pos, pos + rng.choice([3, 6, 9])))
             pos = genes[-1][1] + rng.randrange(0, 60)
-        record = build_record(n, circular, genes)
+        record = logged_record(n, circular, genes)
         gene_id = {cds.get_name(): i for i, cds in enumerate(record.get_cds_features())}
         ids, protos, areas, ops = {}, [], [], []
 
@@ -778,6 +1114,9 @@ def run_links(chk, rng, total, cases, impl_outs):
                 out += [len(members)] + members + [len(cds)] + cds
             return out
 
+        record.snapshot = grouping
+        record.create_log = []
+
         def random_span():
             if circular and rng.random() < 0.15:
                 s = rng.randrange(n // 2, n)
@@ -785,10 +1124,31 @@ def run_links(chk, rng, total, cases, impl_outs):
             s = rng.randrange(0, n - 1)
             return s, min(n, s + rng.choice([1, 10, 40, 90]))
         try:
-            for _ in range(rng.choice([2, 4, 6, 9, 12])):
+            for _ in range(rng.choice([2, 4, 6, 9, 12, 16])):
                 kind = rng.choice(["sub", "sub", "cand", "cand", "create", "create", "clear_regions", "clear_cands", "clear_subs",
-                                   "clear_protos"])
-                if kind == "sub":
+                                   "clear_protos", "strip", "again", "again", "again"])
+                if kind == "again":
+                    # a feature that a clear removed is handed to the record again (the same object)
+                    absent = [a for a in areas if not any(a is x for x in record.get_subregions())
+                              and not any(a is x for x in record.get_candidate_clusters())]
+                    absent += [p for p in protos if not any(p is x for x in record.get_protoclusters())]
+                    if not absent:
+                        continue
+                    obj = rng.choice(absent)
+                    if any(obj is p for p in protos):
+                        record.add_protocluster(obj)
+                        ops.append([0, ids[id(obj)]])
+                    elif hasattr(obj, "protoclusters"):
+                        record.add_candidate_cluster(obj)
+                        ops.append([8, ids[id(obj)], len(obj.protoclusters)] + [ids[id(c)] for c in obj.protoclusters])
+                    else:
+                        record.add_subregion(obj)
+                        ops.append([2, ids[id(obj)]])
+                elif kind == "strip":
+                    del record.create_log[:]
+                    record.strip_antismash_annotations()
+                    ops.append([9, len(record.create_log)] + [x for g in record.create_log for x in g])
+                elif kind == "sub":
                     s, e = random_span()
                     obj = make_ring_area("sub", s, e, n)
                     ids[id(obj)] = 300 + len(areas)
@@ -878,6 +1238,16 @@ def known_findings(chk):
                 record.create_regions()
                 if any(loc_parts(r.location) == [(0, n)] for r in record.get_regions()):
                     chk.known(finding["what_fails"])
+            elif finding["class"] == "late_gene_origin_region_unlinked":
+                from antismash.common.secmet.test.helpers import DummyCDS
+                for s, e in w["subregions"]:
+                    record.add_subregion(DummySubRegion(s, e, record_length=n))
+                record.create_regions()
+                cds = DummyCDS(w["late_gene"][0], w["late_gene"][1], locus_tag="late")
+                record.add_cds_feature(cds)
+                first = record.get_regions()[0]
+                if cds.region is None and cds.is_contained_by(first) and len(first.location.parts) == 2:
+                    chk.known(finding["what_fails"])
         except Exception:  # pylint: disable=broad-except
             pass          # the witness no longer behaves as recorded: nothing is printed, nothing is suppressed by this
 
@@ -889,14 +1259,54 @@ def replay(chk, path):
         print("model:", common.run_driver([doc["flat"]])[0], "recorded implementation:", doc.get("implementation"))
         return 0
     inp = doc.get("input") or {}
+    if "late_gene" in inp:
+        from antismash.common.secmet.test.helpers import DummyCDS
+        from antismash.common.secmet.locations import CompoundLocation, FeatureLocation
+        ctx = inp["history"]
+        areas = [tuple(a) for a in ctx["areas_in_supply_order"]]
+        _flat, _out, _observed, record, _objs = ring_case(inp["length"], inp.get("circular", True), areas, ctx["kinds"],
+                                                          [tuple(g) for g in ctx.get("genes_before", [])])
+        gene = [tuple(g) for g in inp["late_gene"]]
+        location = (FeatureLocation(gene[0][0], gene[0][1], 1) if len(gene) == 1
+                    else CompoundLocation([FeatureLocation(s, e, 1) for s, e in gene]))
+        cds = DummyCDS(location=location, locus_tag="late")
+        record.add_cds_feature(cds)
+        print("input:", inp)
+        print("regions now:", [loc_parts(r.location) for r in record.get_regions()], "(the recorded history step",
+              ctx["history"][2], "is not repeated)")
+        print("cds.region now:", cds.region, "; regions listing the gene:",
+              [loc_parts(r.location) for r in record.get_regions() if any(c is cds for c in r.cds_children)])
+        print("regions containing the gene:", [loc_parts(r.location) for r in record.get_regions()
+                                               if gene_in_region(gene, loc_parts(r.location))])
+        return 0
     if "areas_in_supply_order" in inp and "kinds" in inp and isinstance(inp["kinds"], list):
         areas = [tuple(a) for a in inp["areas_in_supply_order"]]
-        flat, out, observed, _record, _objs = ring_case(inp["length"], inp.get("circular", True), areas, inp["kinds"])
+        flat, out, observed, record, objs = ring_case(inp["length"], inp.get("circular", True), areas, inp["kinds"],
+                                                      [tuple(g) for g in inp.get("genes", [])])
         print("input:", inp)
         print("implementation now:", "raised" if observed is None else [(p, c, s) for p, c, s, _ in observed], out)
         print("model:", common.run_driver([flat])[0])
         print("oracle:", ring_spec(areas, inp["length"], None if observed is None else [(p, c, s) for p, c, s, _ in observed]),
               "expected components:", ring_components(areas, inp["length"]))
+        step = (inp.get("history") or [None, None, None])[2] if isinstance(inp.get("history"), list) else None
+        calls = {"recreate": ["clear_regions", "create_regions"], "clear_subregions": ["clear_subregions"],
+                 "clear_candidate_clusters": ["clear_candidate_clusters"], "clear_protoclusters": ["clear_protoclusters"],
+                 "strip": ["strip_antismash_annotations"], "add_again": ["strip_antismash_annotations"]}
+        if observed is not None and step in calls:
+            for call in calls[step]:
+                getattr(record, call)()
+            if step == "add_again" and inp.get("areas_added_again_in_this_order"):
+                pool = list(zip(areas, objs))
+                order = []
+                for a in inp["areas_added_again_in_this_order"]:
+                    k = [i for i, (b, _) in enumerate(pool) if tuple(a) == b][0]
+                    order.append(pool.pop(k)[1])
+                add_objects(record, order)
+                record.create_regions()
+            print(f"after {calls[step]}" + (" + the same objects added again + create_regions" if step == "add_again" else "") + ":",
+                  "oracle on the record state:", oracle(record, objs),
+                  "; parents:", [None if o.parent is None else str(o.parent.location) for o in objs],
+                  "; candidate numbers:", [record.get_candidate_cluster_number(c) for c in record.get_candidate_clusters()])
         return 0
     print(inp, doc.get("failure") or doc.get("steps"))
     return 0
